@@ -36,6 +36,11 @@ def pool(cfg, A=10):
         H("h1", 1, N, N, h0 + pd + 30, pd + 30),
         H("h1", 1, p1 + 1, N + 1, h0 + pd + 5, pd + 5),
     ]
+    # three parts of which no two fund the set: staggered arrivals of an incomplete set
+    t1 = max(1, N // 3)
+    if 2 * t1 < N and N - 2 * t1 >= 1:
+        good += [H("h1", 1, t1, N, h0 + pd + 11, pd + 11), H("h1", 1, t1, N, h0 + pd + 12, pd + 12),
+                 H("h1", 1, N - 2 * t1, N, h0 + pd + 13, pd + 13)]
     bad = [
         H("h1", 2, p2, N, h0 + pd + 30, pd + 30),        # conflicting invoice
         H("h1", 1, p2, N, h0 + pd - 10, pd - 10),        # relative expiry too low
@@ -197,6 +202,10 @@ CLASS_INVS = [
     {"hash": "h1", "amt": CLASS_A, "hops": "LO"},       # 14 two-hop hint, local node first (not a self route hint)
     {"hash": "h1", "amt": 0, "hops": "OLO"},            # 15 local node in the middle
     {"hash": "h1", "amt": CLASS_A, "hops": "O"},        # 16 a hint that does not involve us
+    {"hash": "h1", "amt": CLASS_A, "hops": "O,L"},      # 17 two hints, the SECOND one is a self route hint
+    {"hash": "h1", "amt": 0, "hops": "OO,O,OL"},        # 18 three hints, local node last in the third
+    {"hash": "h1", "amt": CLASS_A, "hops": "L,O"},      # 19 the first of two is a self route hint
+    {"hash": "h1", "amt": CLASS_A, "hops": "LO,O"},     # 20 two hints, local node only first in one of them (no self hint)
 ]
 
 def class_cases():
